@@ -63,7 +63,7 @@ def random_stream(rng, hold_heavy=True):
         prev = b
         for c in range(cols):
             if rng.random() < rng.choice([.2, .5, .8]):
-                notes.append([frac(b), c, rng.choices(types, weights)[0], 0, rng.choice([None, None, None, 3])])
+                notes.append([frac(b), c, rng.choices(types, weights)[0], 0, rng.choice([None, None, None, 3, 0])])
     return notes
 
 
@@ -104,7 +104,7 @@ def run(ctx, for_c10=False):
         notes = []
         b = 0
         for c in order:
-            notes.append([frac(Fraction(b)), c, rng.choice("24"), 0, rng.choice([None, None, 7])]); b += rng.choice([0, 1, 1, 2])
+            notes.append([frac(Fraction(b)), c, rng.choice("24"), 0, rng.choice([None, None, 7, 0])]); b += rng.choice([0, 1, 1, 2])
         end = b + rng.randrange(1, 4)
         rel = order[:] if rng.random() < .5 else rng.sample(order, len(order))
         together = rng.random() < .5
